@@ -12,6 +12,7 @@ INVARIANT LawPartial
 INVARIANT LawErrorsOnlyRaise
 INVARIANT LawShown
 INVARIANT LawOptimum
+INVARIANT LawPaddedCost
 INVARIANT LawSplit
 INVARIANT LawInfer
 INVARIANT LawDual
